@@ -218,9 +218,7 @@ META = {
         "the joint product of supply patterns over all arguments is "
         "explored for the representative methods listed; the other methods "
         "see every pattern per argument (rotation), not every combination",
-        "quick tier: the two thirds of the methods outside the seeded "
-        "sample",
-        "nesting deeper than 3 blocks; update_current_context(); contexts "
+        "nesting deeper than 3 blocks; contexts "
         "shared between controllers or threads; parameter names other "
         "than the documented contextual ones placed in a context",
         "later datagrams of multi-command methods are checked for their "
@@ -1520,6 +1518,51 @@ def h_reentry(ctx, cls, name, sets, app):
                                 for i, (q, a) in enumerate(zip(got, stops))])
 
 
+@stoppable
+def h_update(ctx, cls, name, sets):
+    """update_current_context(): changes the innermost context of THAT
+    controller only -- the base context when no block is open (then it stays
+    after blocks are left), the block's own context inside a block (then it
+    goes when the block is left).  Other controllers, created before or
+    after, keep the documented initial context."""
+    pl = plan(cls, name)
+    hosts = BMP_HOSTS[0] if cls == BMP else None
+    with Env(ctx) as env:
+        A = env.controller(cls, None, hosts)
+        B = env.controller(cls, None, hosts)
+        sA = Scenario(ctx, env, A, pl, dict(INIT[cls]), hosts)
+        sB = Scenario(ctx, env, B, pl, dict(INIT[cls]), hosts)
+
+        def probe(s, active, tag):
+            s.call(pl.probe_npos, {}, active, prefix="update-" + tag + "-")
+        outcome = "ok"
+        try:
+            probe(sA, (), "start-A")
+            u1 = {a: sym(ctx, a, "u1") for a in sets}
+            A.update_current_context(**u1)
+            sA.init.update(u1)
+            probe(sA, (), "base-A")
+            probe(sB, (), "base-B")
+            lv = {a: sym(ctx, a, "blk") for a in sets[:1]}
+            sA.levels = {1: dict(lv)}
+            with A(**lv):
+                probe(sA, (1,), "block-A")
+                u2 = {a: sym(ctx, a, "u2") for a in sets}
+                A.update_current_context(**u2)
+                sA.levels[1].update(u2)
+                probe(sA, (1,), "block-updated-A")
+                probe(sB, (), "block-B")
+            probe(sA, (), "left-A")
+            C = env.controller(cls, None, hosts)
+            sC = Scenario(ctx, env, C, pl, dict(INIT[cls]), hosts)
+            probe(sC, (), "new-C")
+            ctx.witness("updated")
+        except Exception as e:
+            outcome = type(e).__name__ + ": " + str(e)[:200]
+        ctx.observe(outcome)
+        ctx.prove(outcome == "ok", "call-failed", outcome)
+
+
 # ----------------------------------------------------------------------
 def specs_names(cls):
     return list(specs()[cls])
@@ -1623,6 +1666,13 @@ def units(tier, seed):
             cls, name, "application() blocks" if app else ",".join(sets)),
             h_reentry, dict(cls=cls, name=name, sets=sets, app=app),
             witnesses=("sent", "re-entered", "left-by-exception")))
+    for cls, name, sets in ((MC, "send_signal", ("app_id",)),
+                            (MC, "sdram_alloc", ("x", "y", "app_id")),
+                            (BMP, "set_led", ("board", "frame"))):
+        us.append(Unit("update_current_context %s.%s %s" % (
+            cls, name, ",".join(sets)), h_update,
+            dict(cls=cls, name=name, sets=sets),
+            witnesses=("sent", "updated")))
     us.append(Unit("application blocks", h_application, {}, split=2,
                    witnesses=("application-left", "left-by-exception")))
     if quick:
